@@ -1,8 +1,8 @@
 import CbiVerif.Lemmas.MacroObjTop
 import CbiVerif.Spec.Prosser
 /-! # C03, object-like fragment: the recursive reference `E` (which `MX.cbiExpand` computes, `expandWith_obj`) agrees with the
-    specification `Spec.Prosser.expand` (Prosser's hide-set algorithm) on tables of object-like macros without `##`,
-    without the name `None` (finding D35) and without `defined`. -/
+    specification `Spec.Prosser.expand` (Prosser's hide-set algorithm) on tables of object-like macros without `##`
+    and without `defined` (any identifier, `None` included: finding D35 is repaired). -/
 namespace CbiVerif.MX
 open CbiVerif.PP
 open CbiVerif.Spec.Prosser (T K Macros Unspec)
@@ -18,9 +18,9 @@ def toSpec (hs : List String) (t : Tok) : T := ⟨kindOf t.kind, spellTok t, t.p
 def specTable (tbl : Table) : Macros :=
   tbl.map fun e => ⟨e.1, none, false, e.2.replacement.map (toSpec [])⟩
 
-/-- tokens the comparison is about: not yet painted, no `##` operator, not the identifiers `None` / `defined` -/
+/-- tokens the comparison is about: not yet painted, no `##` operator, not the identifier `defined` -/
 def PlainTok (t : Tok) : Prop :=
-  t.expandable = true ∧ t.text ≠ "##" ∧ (t.kind = .ident → t.text ≠ "None" ∧ t.text ≠ "defined")
+  t.expandable = true ∧ t.text ≠ "##" ∧ (t.kind = .ident → t.text ≠ "defined")
 
 structure PlainTbl (tbl : Table) : Prop where
   ok : TblOK tbl
@@ -100,16 +100,17 @@ theorem rep_eq (r : List Tok) (hs' : List String) (pw : Bool) :
       intro x _
       simp [toSpec, union_nil_left]
 
-def Agree (D hs : List String) : Prop := ∀ x, x ≠ "None" → D.contains x = hs.contains x
+def Agree (D : NoExp) (hs : List String) : Prop := ∀ x, D.contains (some x) = hs.contains x
 
 theorem union_contains (hs : List String) (n x : String) :
     (Spec.Prosser.union hs [n]).contains x = (hs.contains x || x == n) := by
   rw [Bool.eq_iff_iff]
   by_cases hx : x ∈ hs <;> simp [Spec.Prosser.union, hx]
 
-theorem agree_step (D hs : List String) (n : String) (h : Agree D hs) : Agree (n :: D) (Spec.Prosser.union hs [n]) := by
-  intro x hx
-  rw [List.contains_cons, union_contains, h x hx, Bool.or_comm]
+theorem agree_step (D : NoExp) (hs : List String) (n : String) (h : Agree D hs) : Agree (some n :: D) (Spec.Prosser.union hs [n]) := by
+  intro x
+  rw [List.contains_cons, union_contains, h x, Bool.or_comm]
+  simp
 
 theorem plain_fixpw (r : List Tok) (pw : Bool) (h : ∀ t ∈ r, PlainTok t) : ∀ t ∈ fixpw r pw, PlainTok t := by
   cases r with
@@ -146,7 +147,7 @@ theorem step_macro (ms : Macros) (f : Nat) (top : Bool) (t : T) (ts out : List T
 /-- the specification's loop, started on the image of `ts` (hide set `hs` ~ disabled names `D`), consumes it in `c`
     iterations and appends tokens spelled like `E tbl d D ts` to its output -/
 theorem spec_sim (tbl : Table) (hT : PlainTbl tbl) (B : Nat) (hB : BodiesLe tbl B) :
-    ∀ (d : Nat) (D : List String) (ts : List Tok) (hs : List String), Agree D hs → (∀ t ∈ ts, PlainTok t) → Fits tbl d D ts →
+    ∀ (d : Nat) (D : NoExp) (ts : List Tok) (hs : List String), Agree D hs → (∀ t ∈ ts, PlainTok t) → Fits tbl d D ts →
     ∃ (c : Nat) (R : List T), c ≤ ts.length * Cb B d ∧ R.map (·.text) = (E tbl d D ts).map spellTok ∧
       ∀ (f : Nat) (rest out : List T),
         Spec.Prosser.expand (specTable tbl) (f + c) true (ts.map (toSpec hs) ++ rest) out
@@ -204,12 +205,12 @@ theorem spec_sim (tbl : Table) (hT : PlainTbl tbl) (B : Nat) (hB : BodiesLe tbl 
       · have hk' : (a.kind != TKind.ident) = false := by simpa using hk
         have hki : a.kind = .ident := by simpa using hk
         have hsp : spellTok a = a.text := spellTok_ident a hki
-        obtain ⟨hnone, hndef⟩ := hid hki
+        have hndef := hid hki
         have hdef : Spec.Prosser.isDefinedTok (toSpec hs a) = false := by
           simp [Spec.Prosser.isDefinedTok, toSpec, hsp, hndef]
         have hkid : (kindOf a.kind != K.id) = false := by simp [hki, kindOf]
-        have hcont : D.contains a.text = hs.contains a.text := hag _ hnone
-        by_cases hq : (!a.expandable || D.contains a.text) = true
+        have hcont : D.contains (some a.text) = hs.contains a.text := hag _
+        by_cases hq : (!a.expandable || D.contains (some a.text)) = true
         · apply advance (paint a) (spellTok_paint a)
           · rw [E]; simp only [hk', Bool.false_eq_true, if_false, hq, if_true]
           · intro f rest out
@@ -218,7 +219,7 @@ theorem spec_sim (tbl : Table) (hT : PlainTbl tbl) (B : Nat) (hB : BodiesLe tbl 
               rw [← hcont]; simpa [hexp] using hq
             show (kindOf a.kind != K.id || hs.contains (spellTok a)) = true
             rw [hsp, this]; simp
-        · have hq' : (!a.expandable || D.contains a.text) = false := by simpa using hq
+        · have hq' : (!a.expandable || D.contains (some a.text)) = false := by simpa using hq
           have hnc : hs.contains a.text = false := by
             rw [← hcont]; simpa [hexp] using hq'
           have hcond : ((toSpec hs a).kind != K.id || (toSpec hs a).hs.contains (toSpec hs a).text) = false := by
@@ -238,11 +239,11 @@ theorem spec_sim (tbl : Table) (hT : PlainTbl tbl) (B : Nat) (hB : BodiesLe tbl 
             have hfit := hf2 hki hq' m hm
             obtain ⟨sm, hget, hpar, hbody⟩ := specTable_get_some tbl _ m hm
             have hE : E tbl (d + 1) D (a :: as)
-                = E tbl d (m.name :: D) (fixpw m.replacement a.pw) ++ E tbl (d + 1) D as := by
+                = E tbl d (some m.name :: D) (fixpw m.replacement a.pw) ++ E tbl (d + 1) D as := by
               rw [E]; simp only [hk', Bool.false_eq_true, if_false, hq', hm]
-            have hag' : Agree (m.name :: D) (Spec.Prosser.union hs [a.text]) := by
+            have hag' : Agree (some m.name :: D) (Spec.Prosser.union hs [a.text]) := by
               rw [hname]; exact agree_step D hs a.text hag
-            obtain ⟨c1, R1, hc1, hR1, hx1⟩ := ihd (m.name :: D) (fixpw m.replacement a.pw) (Spec.Prosser.union hs [a.text]) hag'
+            obtain ⟨c1, R1, hc1, hR1, hx1⟩ := ihd (some m.name :: D) (fixpw m.replacement a.pw) (Spec.Prosser.union hs [a.text]) hag'
               (plain_fixpw _ _ hbp) hfit
             have hstep : ∀ (f : Nat) (rest out : List T),
                 Spec.Prosser.expand (specTable tbl) (f + 1) true (toSpec hs a :: (as.map (toSpec hs) ++ rest)) out
@@ -280,11 +281,11 @@ theorem spec_sim (tbl : Table) (hT : PlainTbl tbl) (B : Nat) (hB : BodiesLe tbl 
 theorem E_eq_prosser (tbl : Table) (hT : PlainTbl tbl) (ts : List Tok) (hts : ∀ t ∈ ts, PlainTok t)
     (hfuel : ts.length * Cb (bodyMax tbl) (tbl.length + 1) < CbiVerif.Spec.Prosser.defaultFuel) :
     ∃ out, CbiVerif.Spec.Prosser.prosserToks (specTable tbl) (ts.map (toSpec [])) = .ok out ∧
-      out.map (·.text) = (E tbl (tbl.length + 1) ["None"] ts).map spellTok := by
-  have hag : Agree ["None"] [] := by
-    intro x hx
-    simp [hx]
-  obtain ⟨c, R, hc, hR, hx⟩ := spec_sim tbl hT (bodyMax tbl) (bodiesLe_bodyMax tbl) (tbl.length + 1) ["None"] ts [] hag hts
+      out.map (·.text) = (E tbl (tbl.length + 1) [] ts).map spellTok := by
+  have hag : Agree [] [] := by
+    intro x
+    simp
+  obtain ⟨c, R, hc, hR, hx⟩ := spec_sim tbl hT (bodyMax tbl) (bodiesLe_bodyMax tbl) (tbl.length + 1) [] ts [] hag hts
     (fits_top tbl hT.ok _ _)
   refine ⟨R, ?_, hR⟩
   obtain ⟨g, hg⟩ : ∃ g, CbiVerif.Spec.Prosser.defaultFuel = (g + 1) + c :=
